@@ -47,9 +47,15 @@ def run(st, tier, seed):
     n = 100 if tier == "quick" else 2500
     drv = core.Driver() if st.driver_ok else None
     reqs, meta = [], []
-    for i in range(n):
+    import compile_check
+    exb = [b_ for _, b_ in compile_check.example_bundles(rng, 6 if tier == "quick" else 107)]
+    res.count("repository-examples", len(exb))
+    for i in range(n + len(exb)):
         struct_orient = rng.random() < 0.4
-        if rng.random() < 0.55:
+        if i >= n:
+            b = exb[i - n]
+            struct_orient = False
+        elif rng.random() < 0.55:
             b = progen.gen_component_bundle(rng, size=rng.choice([3, 6, 10]), satisfiable=True, cover_strands=struct_orient)
         else:
             b = progen.gen_system_bundle(rng, depth=rng.randint(1, 3), size=rng.choice([3, 5]), n_templates=rng.randint(1, 3), satisfiable=True,
